@@ -323,6 +323,15 @@ def check(prop, tier, repo, seed, jobs):
     njobs = [(prop, n["name"], repo, tier, seed) for n in natives if tier in n.get("tiers", ("quick", "thorough"))]
     njobs += [(prop, "domain:" + c.target, repo, tier, seed) for c in contracts if c.native_domain is not None]
     ctx = mp.get_context("fork")
+    if njobs:
+        # xonsh writes its PLY parser tables next to the sources on first import when they are missing (a fresh copy of the tree):
+        # do that ONCE here, so that native checks started in parallel never race on half-written table modules
+        try:
+            subprocess.run([sys.executable, "-c", "import warnings; warnings.simplefilter('ignore'); from xonsh.parser import Parser; Parser(); "
+                            "from xonsh.parsers.completion_context import CompletionContextParser; CompletionContextParser()"],
+                           env=dict(os.environ, PYTHONPATH=repo + os.pathsep + HERE), capture_output=True, timeout=300, stdin=subprocess.DEVNULL)
+        except Exception:  # noqa  (a tree that does not import shows up in the native checks themselves)
+            pass
     with ctx.Pool(min(jobs, max(1, len(vjobs) + len(njobs)))) as pool:
         vres_async = pool.map_async(verify_worker, vjobs, chunksize=1)
         nres_async = pool.map_async(native_worker, njobs, chunksize=1)
